@@ -185,6 +185,23 @@ class Ctx:
         }
 
 
+def refused(fn, attempts=3):
+    """A refusal has to be STABLE: the same illegal request repeated straight away (a retry, a second entry point fed the
+    same bytes) must be refused again - state left behind by the first refusal must not make the second succeed.
+    Returns (ok, observed, outcome): ok iff every attempt raised; outcome 'raised:<Type>' or 'accepted@<attempt>'."""
+    last = None
+    for a in range(attempts):
+        try:
+            r = fn()
+        except (KeyboardInterrupt, SystemExit, GeneratorExit):
+            raise
+        except BaseException as e:  # noqa
+            last = e
+            continue
+        return False, r, "accepted@%d" % (a + 1)
+    return True, last, "raised:" + type(last).__name__
+
+
 def load_repo():
     """Put the repo under test first on sys.path and make sure that is what
     gets imported."""
